@@ -435,6 +435,10 @@ func CommandKeyIndexes(cmd string, args [][]byte) ([]int, bool) {
 	if lastkey < 0 || lastkey >= len(args) || cmdPos.first <= 0 || cmdPos.step <= 0 {
 		return nil, false
 	}
+	if lastkey < cmdPos.first-1 {
+		// fewer arguments than the first key position : the command names no key
+		return nil, false
+	}
 
 	// first/step are described in 1-based form, so convert them to 0-based indexes
 	// before collecting all keys in order.
